@@ -1,5 +1,5 @@
 (* Props_C14.v — C14: round-robin probing: every active member is probed within 2n-1 rounds. *)
-From Foca Require Import Laws MembersM ProbeM FocaM L_Members L_MembersInv L_RoundRobin L_RoundSuspect L_RoundPing L_RotationFrame Concrete.
+From Foca Require Import Laws MembersM ProbeM FocaM L_Members L_MembersInv L_RoundRobin L_RoundSuspect L_RoundPing L_RotationFrame L_SendFrame BcastM Concrete.
 
 Section C14.
 Context {Id Addr : Type} {IO : IdOps Id Addr}.
@@ -75,6 +75,18 @@ Theorem C14_sending_keeps_rotation (rnd : oracle) (f : @foca Id Addr HO) (i : @i
   mems (fst (fst (fst (step rnd f i)))) = mems f.
 Proof. exact (sending_keeps_rotation rnd f i). Qed.
 
+(* stronger, for what merely sends: after gossip(), announce(), broadcast() or a periodic timer the state is the
+   state before with (possibly) other backlogs - member list, cursor, probe bookkeeping, identity, incarnation,
+   configuration, connection state, epoch, handler state and send buffer are exactly the same *)
+Theorem C14_pure_sends_change_only_backlogs (rnd : oracle) (f : @foca Id Addr HO) (i : @input Id) :
+  match i with
+  | IGossip | IAnnounce _ | IBroadcast => True
+  | ITimer (TPeriodicAnnounce _) | ITimer (TPeriodicAnnounceDown _) | ITimer (TPeriodicGossip _) => True
+  | _ => False
+  end ->
+  exists u c, fst (fst (fst (step rnd f i))) = set_customs (set_updates f u) c.
+Proof. exact (sending_changes_only_backlogs rnd f i). Qed.
+
 End C14call.
 
 (* the bound is tight: a layout and shuffle where a member is missing from a window of 2n-2 *)
@@ -116,3 +128,4 @@ Print Assumptions C14_round_terms.
 Print Assumptions C14_round_pings_next.
 Print Assumptions C14_round_example.
 Print Assumptions C14_sending_keeps_rotation.
+Print Assumptions C14_pure_sends_change_only_backlogs.
